@@ -23,6 +23,7 @@ func init() {
 			{ID: "C18-R2", Title: "transient flags on shared code are reset on every exit", Floor: 1, Run: c18r2},
 			{ID: "C18-R3", Title: "resume at the saved ip; reload carries every global over", Floor: 2, Run: c18r3},
 			{ID: "C18-R4", Title: "run-state reset on entry only (never on the way out of a failed piece)", Floor: 2, Run: resetDiscipline},
+			{ID: "C18-R6", Title: "every piece starts with an empty operand stack", Floor: 1, Run: runStartsEmpty},
 			{ID: "C18-R5", Title: "VM-level caches are filled only after the fallible work succeeded (shared with C07-R5)", Floor: 1, Run: c07r5},
 		},
 	})
